@@ -64,7 +64,11 @@ def _assume_helpers(engine):
         for i in range(1, len(es)):
             engine.assume(tm.lt(es[i - 1], es[i]))
 
-    return {"gt": gt, "lt": lt, "ne": ne, "distinct": distinct, "ordered": ordered}
+    def eq(x, y):
+        for a, b in zip(each(x), each(y)):
+            engine.assume(tm.eq(a, b))
+
+    return {"gt": gt, "lt": lt, "ne": ne, "distinct": distinct, "ordered": ordered, "eq": eq}
 
 
 def mk_leaf(name, shape, layout="C"):
